@@ -1,4 +1,5 @@
 """C13 — mempool keeps nonce order, no duplicates, no silent loss (transactions_container.rs one-step relations)."""
+import os
 import re
 import z3
 from vlib.oblig import obligation, mval
@@ -888,3 +889,113 @@ def c13_11(run):
     if not n:
         raise Inconclusive('vacuity')
     run.require_reached(*run.cur.reach)
+
+
+# ----------------------------------------------------------------------------------------------------------------- C13-12
+@obligation('C13', 'C13-12 CheckTx (check_tx): a transaction the mempool already knows (ready, parked or reported removed) is never inserted again; a new one is inserted only after it passed CheckedTransaction::new, with the nonce, balances and costs of ITS signer; the answer mirrors what happened')
+def c13_12(run):
+    R = re.compile
+    TXID = z3.BitVec('tx_id', 256); SIGNER = z3.BitVec('tx_signer', 160)
+
+    def h_status(ctx):
+        st = ctx.st; st.log.append(('status', ctx.ex.deref_val(st, ctx.args[1])))
+        s = z3.BitVec('known_status', 8); st.pc.append(z3.ULE(s, 3))       # 0 unknown, 1 parked, 2 pending, 3 removed
+
+        def mk(variant):
+            def f(s3):
+                a = ex.adts.lookup('mempool::TransactionStatus'); o = Obj(a['path'] if a else 'mempool::TransactionStatus'); o.discr = variant
+                if variant == 'Removed':
+                    r = Obj('mempool::RemovalReason'); r.discr = 'Expired'; r.attrs['tag'] = 'recorded_reason'; o.fields[('Removed', 0)] = r
+                return some(o)
+            return f
+        return [(None, M.thunk_future(lambda ex_, s2, fut: [(s == 0, none()), (s == 1, mk('Parked')), (s == 2, mk('Pending')), (s == 3, mk('Removed'))]))]
+
+    def h_new(ctx):
+        st = ctx.st; st.log.append(('checked_new',)); okv = z3.Bool('checks_pass')
+
+        def mk(s3):
+            t = Obj('CheckedTransaction'); t.attrs['tag'] = 'the_checked_tx'
+            return ok(t)
+
+        def mk_err(s3):
+            a = ex.adts.lookup('CheckedTransactionInitialCheckError'); e = Obj(a['path']); e.discr = z3.BitVec('check_error_kind', 64)
+            s3.pc.append(z3.Or(*[e.discr == z3.BitVecVal(v['index'], 64) for v in a['variants']]))
+            return err(e)
+        return [(None, M.thunk_future(lambda ex_, s2, fut: [(okv, mk), (z3.Not(okv), mk_err)]))]
+
+    def h_costs(ctx):
+        tx = ctx.ex.deref_val(ctx.st, ctx.args[0]); ctx.st.log.append(('costs_of', tx.attrs.get('tag')))
+        okv = z3.Bool('costs_ok')
+        c = M.new_map('HashMap<IbcPrefixed, u128>', []); c.attrs['tag'] = 'costs_of_this_tx'
+        return [(None, M.thunk_future(lambda ex_, s2, fut: [(okv, (lambda s3: ok(s3.tr(c)))), (z3.Not(okv), (lambda s3: err(Obj('CheckedActionFeeError', kind='error'))))], c=c))]
+
+    def h_balances(ctx):
+        who = W.addr(ctx.st, ctx.args[1]); ctx.st.log.append(('balances_of', who))
+        okv = z3.Bool('balances_ok')
+        b = M.new_map('HashMap<IbcPrefixed, u128>', []); b.attrs['tag'] = 'balances_read'
+        return [(None, M.thunk_future(lambda ex_, s2, fut: [(okv, (lambda s3: ok(s3.tr(b)))), (z3.Not(okv), (lambda s3: err()))], b=b))]
+
+    def h_insert(ctx):
+        st = ctx.st; e = ctx.ex
+        tx = e.deref_val(st, ctx.args[1]); tx = e.deref_val(st, tx.fields[('in', 0)]) if isinstance(tx, Obj) and tx.kind == 'arc' else tx
+        st.log.append(('insert', tx.attrs.get('tag') if isinstance(tx, Obj) else None, e.deref_val(st, ctx.args[2]), e.deref_val(st, ctx.args[3]).attrs.get('tag'), e.deref_val(st, ctx.args[4]).attrs.get('tag')))
+        oc = z3.BitVec('insert_outcome', 8); st.pc.append(z3.ULE(oc, 2))       # 0 pending, 1 parked, 2 refused
+
+        def mk(variant):
+            def f(s3):
+                a = ex.adts.lookup('mempool::InsertionStatus'); o = Obj(a['path'] if a else 'InsertionStatus'); o.discr = variant
+                return ok(o)
+            return f
+        return [(None, M.thunk_future(lambda ex_, s2, fut: [(oc == 0, mk('AddedToPending')), (oc == 1, mk('AddedToParked')), (oc == 2, (lambda s3: err(Obj('InsertionError', kind='error'))))]))]
+    hooks = [(R(r'Mempool::transaction_status$'), h_status), (R(r'CheckedTransaction::new(::<.*>)?$'), h_new), (R(r'CheckedTransaction::total_costs(::<.*>)?$'), h_costs),
+             (R(r'(^|::)get_account_balances(::<.*>)?$'), h_balances), (R(r'Mempool::insert$'), h_insert),
+             (R(r'Mempool::len$'), lambda ctx: [(None, M.thunk_future(lambda ex_, s2, fut: [(None, z3.BitVec('mempool_len', 64))]))]),
+             (R(r'CheckedTransaction::address_bytes$|<CheckedTransaction as ([\w:]+::)?AddressBytes>::address_bytes$'), lambda ctx: (ctx.st.log.append(('signer_of', ctx.ex.deref_val(ctx.st, ctx.args[0]).attrs.get('tag'))), [(None, B.cell(SIGNER))])[1]),
+             (R(r'CheckedTransaction::checked_actions$'), lambda ctx: [(None, B.cell(M.new_vec('Vec<CheckedAction>', [])))]),
+             (R(r'CheckedTransaction::encoded_bytes$'), lambda ctx: [(None, B.cell(Obj('bytes::Bytes', kind='opaque')))]),
+             (R(r'TransactionId::new$'), lambda ctx: [(None, TXID)]), (R(r'Digest>::digest'), lambda ctx: [(None, Obj('digest', kind='opaque'))]),
+             (R(r'GenericArray<.*> as Into<\[u8; 32\]>>::into$'), lambda ctx: [(None, z3.BitVec('digest_bytes', 256))]),
+             (R(r'Instant::(now|elapsed|saturating_duration_since)$'), lambda ctx: [(None, Obj('t', kind='opaque'))]),
+             (R(r'^(astria_eyre::eyre::)?(Report|ErrReport)(::<.*>)?::(new|wrap_err)(::<.*>)?$|^<[^{]*Engine>::encode(::<.*>)?$'), lambda ctx: [(None, Obj(ctx.ret_ty, kind='error'))])]
+    ex, W = A.engine(extra_hooks=hooks)
+    f = ex.find(r'service::mempool::check_tx$')
+    run.bound(inputs='arbitrary transaction bytes; the mempool status lookup, CheckedTransaction::new, cost / balance reads and Mempool::insert (C13-7) are oracles with every outcome')
+    w0 = initial_world_13()
+    world = dict(w0, block_fees=[], cached_deposits=[], events=[], validator_updates=[])
+    st = ex.start(f, [Obj('bytes::Bytes', kind='opaque'), Obj('S', kind='cell'), B.cell(Obj('Mempool')), B.cell(Obj('Metrics'))], world=world)
+    n = 0
+    ks, ins_oc = z3.BitVec('known_status', 8), z3.BitVec('insert_outcome', 8)
+    for i, p in enumerate(run.explore(ex, st, poll=True, allow_havoc=(r'^Arguments::|fmt::', r'Bytes::len$'))):
+        if p.kind != 'return':
+            run.prove(f'no panic [path {i}]', p.pc, z3.BoolVal(False), detail=p.info); continue
+        n += 1
+        out = ex.deref_val(p, p.result.fields[('Ready', 0)] if isinstance(p.result, Obj) and ('Ready', 0) in p.result.fields else p.result)
+        oname = out.discr if isinstance(out.discr, str) else ex.adts.variant_name(out.ty, out.discr)
+        names = [e[0] for e in p.log]
+        ins = [e for e in p.log if e[0] == 'insert']
+        run.sample({'path': i, 'outcome': oname, 'effects': names})
+        if os.environ.get('C13_DEBUG'):
+            import sys; print(i, oname, [(e[0],) + tuple(str(x)[:40] for x in e[1:]) for e in p.log], [str(c)[:60] for c in p.pc if 'ok' in str(c) or 'outcome' in str(c) or 'status' in str(c)], file=sys.stderr)
+        run.prove(f'the status is looked up first, for this transaction id [path {i}]', p.pc, z3.And(z3.BoolVal(names[:1] == ['status']), p.log[0][1] == TXID))
+        run.prove(f'known to the mempool => answered from the status alone: nothing is checked or inserted again [path {i}]', p.pc,
+                  z3.Implies(ks != 0, z3.And(z3.BoolVal(names == ['status']), z3.BoolVal(oname == {1: 'AlreadyInParked', 2: 'AlreadyInPending', 3: 'RemovedFromMempool'}.get(0, oname)),
+                                               z3.Or(z3.And(ks == 1, z3.BoolVal(oname == 'AlreadyInParked')), z3.And(ks == 2, z3.BoolVal(oname == 'AlreadyInPending')), z3.And(ks == 3, z3.BoolVal(oname == 'RemovedFromMempool'))))))
+        if ins:
+            e = ins[0]
+            run.prove(f'inserted => unknown before and checks passed; exactly one insertion, of the transaction that was checked [path {i}]', p.pc,
+                      z3.And(ks == 0, z3.Bool('checks_pass'), z3.BoolVal(len(ins) == 1 and e[1] == 'the_checked_tx')))
+            run.prove(f'inserted with the balances that were read and the costs of this transaction [path {i}] (got {e[3]!r}, {e[4]!r})', p.pc, z3.BoolVal(e[3] == 'balances_read' and e[4] == 'costs_of_this_tx'))
+            who = SIGNER if any(e_ == ('signer_of', 'the_checked_tx') for e_ in p.log) else None
+            bal = [b[1] for b in p.log if b[0] == 'balances_of']
+            run.prove(f'inserted with the stored nonce of ITS signer; balances were read for that signer [path {i}]', p.pc,
+                      z3.And(z3.BoolVal(who is not None and len(bal) == 1), e[2] == z3.Select(w0['nonce'], who) if who is not None else z3.BoolVal(False), bal[0] == who if who is not None and bal else z3.BoolVal(False)))
+        run.prove(f'the answer mirrors what happened [path {i}]', p.pc,
+                  z3.And(z3.BoolVal(oname == 'AddedToPending') == z3.And(z3.BoolVal(bool(ins)), ins_oc == 0), z3.BoolVal(oname == 'AddedToParked') == z3.And(z3.BoolVal(bool(ins)), ins_oc == 1),
+                         z3.BoolVal(oname == 'FailedInsertion') == z3.And(z3.BoolVal(bool(ins)), ins_oc == 2),
+                         z3.BoolVal(oname == 'FailedChecks') == z3.And(ks == 0, z3.Not(z3.Bool('checks_pass')), z3.BoolVal('checked_new' in names))))
+    if n < 8:
+        raise Inconclusive(f'vacuity: {n} paths')
+    run.require_reached(*run.cur.reach)
+
+
+from vlib.seqworld import initial_world as initial_world_13
